@@ -155,9 +155,14 @@ struct FwdObs : public Observer {
     // known finding (known_findings.json): array_adaptive drops stores beyond
     // array_adaptive.max_array_size cells without remembering it, and a later load
     // through a symbolic index only looks at the cells it still tracks
-    if (!r.empty() && st.is_arr_read() && std::string(VERIF_VARIANT).compare(0, 3, "aa_") == 0 &&
-        crab::domains::crab_domain_params_man::get().array_adaptive_max_array_size() <= 8)
-      tag = "aa_symbolic_load_unsound_small_max_array_size";
+    if (!r.empty() && st.is_arr_read() && std::string(VERIF_VARIANT).compare(0, 3, "aa_") == 0) {
+      // ... which needs more concretely written cells in that array than the limit allows
+      auto &ld = static_cast<crab::cfg::statement_visitor<label_t, z_number, varname_t>::arr_load_t &>(st);
+      auto ai = s.arr.find(ld.array());
+      uint64_t ncells = ai == s.arr.end() ? 0 : ai->second.size();
+      if (ncells > crab::domains::crab_domain_params_man::get().array_adaptive_max_array_size())
+        tag = "aa_symbolic_load_unsound_small_max_array_size";
+    }
     VCHECK(ctx, mp, r.empty(), tag,
            "after `" << to_str(st) << "` in block " << l << " state " << s.str() << " is not in the propagated invariant "
                      << to_str(bi.after[idx]) << " (before: " << (idx ? to_str(bi.after[idx - 1]) : to_str(bi.pre)) << ") : " << r);
